@@ -550,7 +550,7 @@ func (e *env) doStep(st Step) *hx.Failure {
 				wantEvents = []expEvent{{id: e.ids[st.D]}}
 			}
 		}
-	case "get", "list", "count", "indexes":
+	case "get", "list", "count", "indexes", "docids":
 		if st.A != 0 {
 			if ac.ended {
 				return nil
@@ -594,7 +594,7 @@ func (e *env) doStep(st Step) *hx.Failure {
 	// 3. a reader outside every transaction sees exactly the committed state (a read inside a
 	// transaction is followed by the raw-store and event checks only)
 	switch st.K {
-	case "get", "list", "count", "indexes":
+	case "get", "list", "count", "indexes", "docids":
 		if st.A != 0 {
 			return nil
 		}
@@ -1226,6 +1226,16 @@ func (e *env) readExpect(st Step, s *mstate) string {
 		return strings.Join(rows, "\n")
 	case "indexes":
 		return s.indexNames()
+	case "docids":
+		// the primary key of a deleted document stays (marked deleted): GetAllDocIDs lists it too
+		ids := []string{}
+		for k, d := range s.docs {
+			if d.st != absent {
+				ids = append(ids, e.ids[k])
+			}
+		}
+		sort.Strings(ids)
+		return strings.Join(ids, "\n")
 	}
 	hx.Harnessf("readExpect: %q", st.K)
 	return ""
@@ -1326,6 +1336,27 @@ func (e *env) observe(ac *actor, st Step) (got string, errText string, route str
 			return "", res.Err(), route, nil
 		}
 		return strings.Join(hx.SortRows(res.Rows("Users")), "\n"), "", route, nil
+
+	case "docids":
+		// Collection.GetAllDocIDs: the ids of the documents (deleted ones included), through the collection API only
+		route = routeName(st.A, 2)
+		col, err := e.col(ac)
+		if err != nil {
+			return "", err.Error(), route, nil
+		}
+		ch, err := col.GetAllDocIDs(e.callCtx(ac))
+		if err != nil {
+			return "", err.Error(), route, nil
+		}
+		ids := []string{}
+		for res := range ch {
+			if res.Err != nil {
+				return "", res.Err.Error(), route, nil
+			}
+			ids = append(ids, res.ID.String())
+		}
+		sort.Strings(ids)
+		return strings.Join(ids, "\n"), "", route, nil
 
 	case "indexes":
 		route = routeName(st.A, r)
